@@ -57,7 +57,15 @@ func (c *Ctx) checkHistoryReads() {
 			core.AllInstrs(fn, func(in ssa.Instruction) {
 				if mu, ok := in.(*ssa.MapUpdate); ok && core.IsConstString("count")(mu.Key) {
 					if derivesAny(mu.Value, func(v ssa.Value) bool {
-						return isLenOf(errResultOf(s, 0))(v)
+						// len(result), also when the result is merged with nil on the no-permission path
+						return isLenOf(func(a ssa.Value) bool {
+							return core.Derives(a, func(x ssa.Value) bool {
+								if k, ok := x.(*ssa.Const); ok && k.Value == nil {
+									return true
+								}
+								return errResultOf(s, 0)(x)
+							}, true) && core.Derives(a, errResultOf(s, 0), false)
+						})(v)
 					}) {
 						okCount = true
 					}
@@ -183,28 +191,57 @@ func (c *Ctx) checkDeleteList() {
 				r.Check(ok && okInc, "C04.2b-delid-after-success", fk(fn)+": Topic.delID++ only after DeleteList succeeded", c.pos(st), "", "the delete counter is advanced before / without a successful DeleteList: a failed request changes what clients see and leaves a gap")
 			}
 			// ranges: Normalize after sort on every non-error path
-			var norm, srt ssa.Instruction
-			core.AllInstrs(fn, func(in ssa.Instruction) {
+			var norm, srt, normOuter ssa.Instruction
+			var normFn, srtFn *ssa.Function
+			c.withCallees(fn, 2, func(owner *ssa.Function, in ssa.Instruction, outer ssa.Instruction) {
 				if call, ok := in.(*ssa.Call); ok {
 					if core.CalleeOf(&call.Call) == normalize {
-						norm = in
+						norm, normFn, normOuter = in, owner, outer
 					}
 					if calleeFullName(call) == "sort.Sort" {
-						srt = in
+						srt, srtFn = in, owner
 					}
 				}
 			})
-			if norm == nil || srt == nil {
+			if norm == nil || srt == nil || normFn != srtFn {
 				r.Fail("C04.2c-ranges-normalised", base+" / ranges sorted and normalised", c.pos(s), "the delete handler no longer sorts and normalises the requested ranges")
 			} else {
 				reached := false
-				res := core.NilWalk(fn, nil, nil, func(in ssa.Instruction) bool { return in == norm }, func(in ssa.Instruction, f core.NilFacts) {
-					if in == sink {
+				overflow := false
+				if normFn == fn {
+					res := core.NilWalk(fn, nil, nil, func(in ssa.Instruction) bool { return in == norm }, func(in ssa.Instruction, f core.NilFacts) {
+						if in == sink {
+							reached = true
+						}
+					})
+					overflow = res.Overflow
+				} else {
+					// the conversion was extracted: inside the helper every return with a possibly-nil
+					// error passes Normalize; in the handler the store call is behind the helper's success
+					ei := errIndex(normFn.Signature)
+					res := core.NilWalk(normFn, nil, nil, func(in ssa.Instruction) bool { return in == norm }, func(in ssa.Instruction, f core.NilFacts) {
+						ret, ok := in.(*ssa.Return)
+						if !ok {
+							return
+						}
+						if ei < 0 {
+							reached = true
+							return
+						}
+						if k, n := core.Nilness(ret.Results[ei], f); !(k && !n) {
+							reached = true
+						}
+					})
+					overflow = res.Overflow
+					oc, isCall := normOuter.(ssa.CallInstruction)
+					if !isCall || ei < 0 {
+						reached = true
+					} else if ok, _ := core.GuardedBy(fn, sink, successGuard(oc)); !ok {
 						reached = true
 					}
-				})
-				r.Check(!reached && !res.Overflow, "C04.2c-ranges-normalised", base+" / every non-error path normalises the ranges", c.pos(s), "", "the store can receive ranges that were not normalised (overlapping/unsorted ranges delete or log ids outside the union)")
-				unsorted, _ := core.PathAvoiding(fn, nil, func(in ssa.Instruction) bool { return in == norm }, func(in ssa.Instruction) bool { return in == srt }, nil)
+				}
+				r.Check(!reached && !overflow, "C04.2c-ranges-normalised", base+" / every non-error path normalises the ranges", c.pos(s), "", "the store can receive ranges that were not normalised (overlapping/unsorted ranges delete or log ids outside the union)")
+				unsorted, _ := core.PathAvoiding(normFn, nil, func(in ssa.Instruction) bool { return in == norm }, func(in ssa.Instruction) bool { return in == srt }, nil)
 				r.Check(!unsorted, "C04.2c-ranges-normalised", base+" / sorted before normalising", c.pos(norm), "", "Normalize is applied to an unsorted list (it assumes sorted input)")
 				okArg := core.Derives(args[4], func(v ssa.Value) bool { return v == norm.(ssa.Value) }, false)
 				r.Check(okArg, "C04.2c-ranges-normalised", base+" / the normalised list is what the store gets", c.pos(s), "", "the ranges handed to the store are not the normalised ones")
